@@ -148,9 +148,20 @@ class Source:
         # the body brace is the first '{' at paren/bracket/angle depth 0 after the parameter list
         par = self.msk.find('(', m.end())
         par_end = match_brace(self.msk, par)
-        brace = self.msk.find('{', par_end)
-        semi = self.msk.find(';', par_end)
-        if semi >= 0 and (brace < 0 or semi < brace):
+        brace = -1
+        depth = 0
+        for k in range(par_end + 1, len(self.msk)):
+            ch = self.msk[k]
+            if ch in '([':
+                depth += 1
+            elif ch in ')]':
+                depth -= 1
+            elif ch == '{' and depth == 0:
+                brace = k
+                break
+            elif ch == ';' and depth == 0:
+                raise ScanError('fn %s has no body' % name)
+        if brace < 0:
             raise ScanError('fn %s has no body' % name)
         end = match_brace(self.msk, brace)
         return self._attr_start(m.start()), brace, end + 1
